@@ -19,6 +19,13 @@ PID = "C05"
 FAMILY = "ConsMsgGate"
 PKG = "c05"
 TRACE = ("ConsMsgGateTrace", "ConsMsgGateTrace.cfg")
+NS = (4, 6, 7)            # cluster sizes (2*nodes # 2*quorum for each)
+
+
+def tcfg(t):
+    """Trace-spec configuration of a trace: by the cluster size in its Reset event."""
+    n = t[0].get("N", 4) if t else 4
+    return "ConsMsgGateTrace.cfg" if n == 4 else "ConsMsgGateTrace_n%d.cfg" % n
 DTRACE = ("ConsDeliverTrace", "ConsDeliverTrace.cfg")
 RULE = ("cases = base message (PRE-PREPARE r1 | PRE-PREPARE r2 with Qrc+prepares | PRE-PREPARE with unprepared Qrc | PRE-PREPARE "
         "r3 with two prepared values | ROUND-CHANGE with / without prepared certificate | PREPARE | COMMIT | DECIDED with "
@@ -59,7 +66,9 @@ CONTROLS = [("ConsMsgGateMC_ctl_gater.cfg", "duty gater call removed"),
             ("ConsMsgGateMC_ctl_refs.cfg", "referenced values not looked up by recomputed hash"),
             ("ConsMsgGateMC_ctl_expiry.cfg", "deadliner check removed"),
             ("ConsMsgGateMC_ctl_unsignedpr.cfg", "prepared_round left out of the signed hash"),
-            ("ConsMsgGateMC_ctl_sigcache.cfg", "justification signature cache keyed by signature bytes only")]
+            ("ConsMsgGateMC_ctl_sigcache.cfg", "justification signature cache keyed by signature bytes only"),
+            ("ConsMsgGateMC_ctl_quorumcap.cfg", "justifications capped at 2*quorum instead of 2*nodes (n=4)"),
+            ("ConsMsgGateMC_ctl_quorumcap_n7.cfg", "justifications capped at 2*quorum instead of 2*nodes (n=7)")]
 
 
 # ----------------------------------------------------------------------------------------------------------------
@@ -67,9 +76,15 @@ CONTROLS = [("ConsMsgGateMC_ctl_gater.cfg", "duty gater call removed"),
 # ----------------------------------------------------------------------------------------------------------------
 def design_jobs(thorough):
     main = [("ConsMsgGateMC", "ConsMsgGateMC.cfg" if thorough else "ConsMsgGateMC_quick.cfg"),
-            ("ConsMsgGateMC", "ConsMsgGateMC_either.cfg"), ("ConsMsgGateMC", "ConsMsgGateMC_full.cfg"),
+            ("ConsMsgGateMC", "ConsMsgGateMC_full.cfg"), ("ConsMsgGateMC", "ConsMsgGateMC_n7.cfg"),
             ("ConsDeliver", "ConsDeliverMC.cfg")]
-    jobs = [(m, c, None) for m, c in main] + [("ConsMsgGateMC", c, w) for c, w in CONTROLS] + \
+    ctl = CONTROLS
+    if thorough:
+        main += [("ConsMsgGateMC", "ConsMsgGateMC_quick.cfg"), ("ConsMsgGateMC", "ConsMsgGateMC_either.cfg"),
+                 ("ConsMsgGateMC", "ConsMsgGateMC_n6.cfg")]
+    else:       # quick: one control per kind of check (all of them in the thorough tier)
+        ctl = [c for c in CONTROLS if any(k in c[0] for k in ("gater", "justsig", "refs", "sigcache", "quorumcap_n7"))]
+    jobs = [(m, c, None) for m, c in main] + [("ConsMsgGateMC", c, w) for c, w in ctl] + \
            [("ConsDeliver", "ConsDeliverMC_ctl_any.cfg", "delivered value not bound to the agreed hash")]
     return jobs
 
@@ -84,7 +99,8 @@ def design_check(o, jobs, dirs):
             vlib.require_mc_ok(r, cfg)
             o.add_mc(cfg[:-4], r)
         else:
-            want = "DeliveredIsAgreed" if mod == "ConsDeliver" else "OnlyAuthentic"
+            # a dropped check lets a non-authentic message in (OnlyAuthentic); a too tight one keeps authentic ones out
+            want = "DeliveredIsAgreed" if mod == "ConsDeliver" else "AcceptIffAuthentic" if "quorumcap" in cfg else "OnlyAuthentic"
             if r.violation != want:
                 raise vlib.Infra("design-spec control failed: '%s' not caught by %s: %s" % (what, want, r.summary()))
             o.selftests.append({"control": "spec variant '%s' violates %s" % (what, want), "rejected_as_required": True})
@@ -93,8 +109,8 @@ def design_check(o, jobs, dirs):
 # ----------------------------------------------------------------------------------------------------------------
 # stage 1: schedules
 # ----------------------------------------------------------------------------------------------------------------
-def enumerate_cases(sdir):
-    r = vlib.tlc(PID, FAMILY, "ConsMsgGateGen", "ConsMsgGateGen.cfg", workers=2, timeout=900, sdir=sdir)
+def enumerate_cases(sdir, gcfg="ConsMsgGateGen.cfg", least=2000):
+    r = vlib.tlc(PID, FAMILY, "ConsMsgGateGen", gcfg, workers=2, timeout=900, sdir=sdir)
     if not r.ok:
         raise vlib.Infra("case enumeration failed: %s\n%s" % (r.summary(), r.out[-2000:]))
     seen, out = set(), []
@@ -107,7 +123,7 @@ def enumerate_cases(sdir):
         if k not in seen:           # (a byte-altered value has one state per possible observation: same schedule)
             seen.add(k)
             out.append(s)
-    if len(out) < 2000:
+    if len(out) < least:
         raise vlib.Infra("case enumeration incomplete: %d cases" % len(out))
     out.sort(key=lambda s: json.dumps(s[1]["case"], sort_keys=True))
     return out, r
@@ -492,7 +508,7 @@ def read_traces(tag):
 
 
 def conf(o, scheds, tag, **kw):
-    vlib.conformance(o, FAMILY, TRACE[0], TRACE[1], PKG, scheds, tag=tag, key=lambda t: t[1:], **kw)
+    vlib.conformance(o, FAMILY, TRACE[0], tcfg, PKG, scheds, tag=tag, key=lambda t: t[1:], **kw)
     check_anomalies(tag)
     check_anomalies(tag + "_re")
 
@@ -502,13 +518,17 @@ def run(tier, seed):
     thorough = tier == "thorough"
     jobs = design_jobs(thorough)
     gdir, sdir = vlib.scratch(PID, FAMILY), vlib.scratch(PID, FAMILY)      # (scratch() is not thread-safe: allocate up front)
+    ndirs = {n: vlib.scratch(PID, FAMILY) for n in NS[1:]}
     dirs = [vlib.scratch(PID, FAMILY) for _ in jobs]
-    with ThreadPoolExecutor(max_workers=3) as ex:
+    with ThreadPoolExecutor(max_workers=5) as ex:
         f1 = ex.submit(enumerate_cases, gdir)
+        fn = {n: ex.submit(enumerate_cases, ndirs[n], "ConsMsgGateGen_n%d%s.cfg" % (n, "" if thorough else "_quick"), 200)
+              for n in NS[1:]}
         f2 = ex.submit(simulate, sdir, seed, 250 if thorough else 25)
         f0 = ex.submit(design_check, o, jobs, dirs)
         f0.result()
         cases, g = f1.result()
+        ncases = {n: f.result()[0] for n, f in fn.items()}
         sim = f2.result()
     cfg = cases[0][0]
     log("[%s] design check + %d cases enumerated by TLC (%.1fs) + %d simulated sequences: %.0fs"
@@ -524,6 +544,24 @@ def run(tier, seed):
     accepted = sum(1 for t in tr_cases if len(t) == 2 and not t[1].get("err", True))
     if not o.violations and (accepted == 0 or accepted == len(tr_cases)):
         raise vlib.Infra("vacuous run: %d of %d cases accepted" % (accepted, len(tr_cases)))
+    # other cluster sizes: the count limits at / one over their maximum, the largest justification an honest leader attaches
+    for n in NS[1:]:
+        for sc in ncases[n]:
+            sc[1]["wire"] = r.random() < 0.5
+        conf(o, ncases[n], "cases_n%d" % n, chunk=200)
+        extra = rand_schedules(r, ncases[n][0][0], ncases[n], 150 * (6 if thorough else 1), N=n)
+        conf(o, extra, "random_n%d" % n, chunk=100)
+    boundary = {}
+    for n in NS:
+        for t in read_traces("cases" if n == 4 else "cases_n%d" % n):
+            c = t[1].get("case", {}) if len(t) == 2 else {}
+            lab = c.get("f") if c.get("kind") == "list" else "honest-maximal" if (c.get("kind"), c.get("base")) == ("none", "PPmax") else None
+            if lab in ("jatlimit", "jexceed", "vatlimit", "vexceed", "honest-maximal"):
+                k = "n=%d %s (%d justifications, %d values)" % (n, lab, len(t[1]["m"]["just"]), len(t[1]["m"]["vals"]))
+                boundary.setdefault(k, {"accepted": 0, "refused": 0})["refused" if t[1]["err"] else "accepted"] += 1
+        for lab in ("jatlimit", "jexceed", "vatlimit", "vexceed", "honest-maximal"):
+            if not any(k.startswith("n=%d %s " % (n, lab)) for k in boundary):
+                raise vlib.Infra("count-limit boundary case %s missing for n=%d" % (lab, n))
     conf(o, sim, "tlcsim")
     k = 6 if thorough else 1
     conf(o, seq_schedules(r, cfg, cases, 300 * k), "seq", chunk=100)
@@ -561,14 +599,15 @@ def run(tier, seed):
                        extra_cov={"cases_enumerated_by_tlc": len(cases), "case_classes": len({ckey(s)[1:2] + ckey(s)[3:4] for s in cases}),
                                   "cases_accepted": accepted, "cases_refused": len(tr_cases) - accepted,
                                   "byte_positions_altered": sum(len(p) for p in pos.values()), "byte_alteration_outcomes": obs,
-                                  "clusters_run": len(cl), "exhaustive": False})
+                                  "clusters_run": len(cl), "count_limit_boundary": boundary,
+                                  "cluster_sizes": list(NS), "exhaustive": False})
 
 
 def replay(path):
     rp = json.load(open(path))
     o = vlib.Outcome(PID, "quick", 0)
-    vlib.conformance(o, FAMILY, rp["trace_module"], rp["trace_cfg"], rp["pkg"], [rp["schedule"]], test=rp.get("test", "TestExec"),
-                     tag="replay")
+    cfg = tcfg if rp["trace_module"] == TRACE[0] else rp["trace_cfg"]
+    vlib.conformance(o, FAMILY, rp["trace_module"], cfg, rp["pkg"], [rp["schedule"]], test=rp.get("test", "TestExec"), tag="replay")
     check_anomalies("replay")
     for p, t in o.violations:
         log("replay: " + t)
